@@ -67,6 +67,8 @@ def run(ctx):
     filemapcorr.run(ctx, 8 if ctx.tier == "quick" else 200)
     b = [("create-delete-cycle", cycle) for _ in range(10 if ctx.tier == "quick" else 200)]
     b += [("dircache-directory-cycle", cache_dir_cycle) for _ in range(6 if ctx.tier == "quick" else 120)]
+    from . import c07 as _c07
+    b += [("dircache-move-across", _c07.move_across_history) for _ in range(6 if ctx.tier == "quick" else 100)]
     b += [("dircache-empty-a-block", c07.block_sweep) for _ in range(2 if ctx.tier == "quick" else 30)]
     b += c01.builders(ctx)[: (100 if ctx.tier == "quick" else 1200)]
     b += [("namespace", c02.ns_history) for _ in range(8 if ctx.tier == "quick" else 200)]
